@@ -597,6 +597,9 @@ func runHTTPServer(t *testing.T, c *HTTPCase, trace bool) *common.Outcome {
 		}
 	}
 	o.NonTrivial = len(c.Conns) >= 2 && pipelined
+	if c.TLS {
+		o.Probe("tls_run")
+	}
 	if res.HarnessErr != "" {
 		o.Infra = res.HarnessErr
 	}
